@@ -5,7 +5,7 @@ from sa.model import AnalysisError, ClassInfo, norm, walk_no_nested
 from sa.roles import ReaderRoles, SPEC_IDS
 from sa.harness import ReaderHarness, Script
 from sa.interp import Interp, Frame, exc_name, exc_ancestors
-from sa.values import ADict, AList, AObj, AStream, Unk, concrete, taint_of
+from sa.values import ADict, AList, AObj, AStream, ExcValue, Unk, concrete, taint_of
 from sa.dom import DomReaderHarness, capture_record_shapes, materialise_record, DomRoles
 from sa.props.c10 import allowed_var, main_loop
 from sa.props.c11 import input_dependent
@@ -317,6 +317,39 @@ def run(P, rep, tier):
             dombad.setdefault(k, (v, res['id']))
         if not res['bad']:
             rep.ok(r1b, 'records ending in %s' % res['id'], {'paths': res['paths']})
+    # the streaming reader rejecting the input (before the first record) must surface as what it raised
+    Ie = Interp(P)
+    He = DomReaderHarness(P, shapes, open_options=False)
+    pe_ = P.cls('pydiffx.errors', 'DiffXParseError')
+    it_ = He.sr.find_method('iter_sections')
+
+    def raising_reader(I_, fi, args, kwargs, node):
+        from sa.interp import AbsRaise
+        raise AbsRaise(ExcValue(pe_, (Unk('msg', kinds=['str'], taint=['INPUT']),), {'linenum': Unk('n', kinds=['int'])}, site=node),
+                       site=node, explicit=True, note='the streaming reader rejects the input')
+    Ie.stubs[it_.qualname] = raising_reader
+
+    def load_rejected():
+        rd = He.new_reader(Ie)
+        return He.run_parse(Ie, rd, 'in')
+    ne = 0
+    for path in Ie.explore(load_rejected):
+        ne += 1
+        if ne > 200:
+            break
+        if path.outcome == 'raise':
+            e = path.value
+            anc = exc_ancestors(e.exc.exc) if isinstance(e.exc.exc, ClassInfo) else [e.exc.exc_name]
+            if 'BaseDiffXError' not in anc:
+                st_ = getattr(e, 'origin_stack', None) or ()
+                loc_ = ('%s:%d' % (st_[-1].module.relpath, getattr(e.site, 'lineno', 0))) if st_ else '?'
+                why_ = e.note or 'raised while the parse error of the streaming reader propagates'
+                key_ = (st_[-1].short if st_ else '?', norm(e.site)[:90] if e.site is not None else '?', e.exc.exc_name)
+                dombad.setdefault(key_, ((loc_, why_, [f.short for f in st_]), 'rejected input'))
+        elif path.outcome == 'return':
+            dombad.setdefault(('DiffXDOMReader.parse', 'return', 'no exception'), (('%s' % He.parse.loc(), 'the parse error of the streaming reader is swallowed', [He.parse.short]), 'rejected input'))
+    if ne:
+        rep.ok(r1b, 'streaming reader rejects the input before the first record', {'paths': ne}) if not any(v[1] == 'rejected input' for v in dombad.values()) else None
     for (fn, txt, exc), ((loc, why, cpath), sid) in sorted(dombad.items(), key=str):
         rep.violation(r1b, 'dom-escape:%s|%s|%s' % (fn, exc, txt), loc,
                       '%s can escape from DiffX.from_stream/from_bytes while loading a %s section: [%s] in %s - %s'
